@@ -32,6 +32,10 @@ pub struct ProgCase {
     /// switch tracing on with the TRACE command instead of the API field
     #[serde(default)]
     pub trace_via_command: bool,
+    /// indices (in answer order) of replies after which the host breaks in BEFORE the tick that
+    /// consumes the reply, optionally types a command, and issues CONT
+    #[serde(default)]
+    pub reply_breaks: Vec<(u32, Option<String>)>,
 }
 
 #[derive(Clone, Copy, Debug)]
@@ -52,6 +56,7 @@ pub fn prog_view(c: &ProgCase) -> serde_json::Value {
         "replies": c.replies.iter().map(|r| r.text.clone()).collect::<Vec<_>>(),
         "break+CONT_at_ticks": c.breaks,
         "break_while_awaiting_at_requests": c.await_breaks,
+        "break_between_reply_and_consumption": c.reply_breaks,
         "commands_at_STOPs": c.stop_cmds,
         "tracing": c.tracing, "warnings": c.warnings, "tick_cap": c.tick_cap,
     })
@@ -460,6 +465,35 @@ pub fn run_lockstep(c: &ProgCase, cmp: Compare, ctx: &mut Ctx) -> Result<LockOut
                     }
                     start_op = Op::Tick;
                     ticks += 1;
+                    if let Some((_, cmd)) = c.reply_breaks.iter().find(|(k, _)| *k as u64 + 1 == out.inputs_answered) {
+                        // the reply has been handed over but not consumed: break, look around, CONT
+                        let b = s.apply(&Op::Break).unwrap();
+                        ctx.calls(1);
+                        if let Some(pn) = b.panicked() {
+                            return Err(v("panic", format!("panic@{pn}"), format!("Break after a reply unwound: {pn}")));
+                        }
+                        let was_tracing = m.tracing;
+                        if let Some(cmd) = cmd {
+                            let r = s.apply(&Op::Line(cmd.clone())).unwrap();
+                            ctx.calls(1);
+                            if let Some(pn) = r.panicked() {
+                                return Err(v("panic", format!("panic@{pn}"), format!("{cmd} unwound: {pn}")));
+                            }
+                            if cmd == "TRACE" {
+                                m.tracing = true;
+                            }
+                        }
+                        out.breaks_fired += 1;
+                        ctx.count("fault.break_after_reply_before_consume");
+                        // the model already consumed the reply in `reply()`; with tracing switched on at the
+                        // break the re-executed INPUT statement is traced by the real interpreter only now
+                        if m.tracing && !was_tracing {
+                            if let Some(l) = s.probe(false).breakpoint.map(|b| b.0) {
+                                m.out.insert(0, Rec::Trace(l));
+                            }
+                        }
+                        start_op = Op::Line("CONT".into());
+                    }
                     break;
                 }
                 if done {
@@ -556,6 +590,13 @@ pub fn shrink_prog_case(c: &ProgCase) -> Vec<ProgCase> {
         for r in crate::engine::shrink_vec(&c.replies) {
             let mut n = c.clone();
             n.replies = r;
+            out.push(n);
+        }
+    }
+    if !c.reply_breaks.is_empty() {
+        for b in crate::engine::shrink_vec(&c.reply_breaks) {
+            let mut n = c.clone();
+            n.reply_breaks = b;
             out.push(n);
         }
     }
